@@ -114,6 +114,14 @@ def gen_rounds(seed, tier, run):
             for ax in list(range(-len(sh), len(sh))):
                 out.append(f"argmax@{ty} {arr(sh, es)} z{ax} z{rng.randint(0, 2)}")
                 out.append(f"argmin@{ty} {arr(sh, es)} z{ax} z{rng.randint(0, 2)}")
+    # unique on float lanes with zeros of both signs, infinities, subnormals (no NaN): one entry per distinct value
+    for ty in ("f64p", "f32p"):
+        for _ in range(40):
+            n_ = rng.randint(1, 9)
+            l = [rng.choice([0, 1, 0, 1, 2, 3, 5, 11, 12, 10, 16, 21, 20, 22]) for _ in range(n_)]
+            out.append(f"uniqz@{ty} {arr([n_], l)}")
+        for fixed in ([2, 0, 1, 3, 0], [1, 0], [0, 1], [1, 1, 0, 0], [0], [1]):
+            out.append(f"uniqz@{ty} {arr([len(fixed)], fixed)}")
     for L in (40, 64, 100):
         sh = [3, L]
         es = [rng.randint(0, 50) for _ in range(3 * L)]
@@ -145,6 +153,25 @@ def gen_rounds(seed, tier, run):
         for (c, q, first), r in zip(again, im2):
             if r != first:
                 _fail.append((c, f"not idempotent: {first[:80]} then {r[:80]}"))
+
+
+def agree(case, impl, model):
+    if case.startswith("uniqz@"):
+        import floatsem, struct
+        t = case.split(" ")
+        single = t[0].endswith("f32p")
+        labs = [int(x) for x in t[1].split(":", 1)[1].split(",") if x]
+        vals = set()
+        for k in labs:
+            v = floatsem.POOL[k]
+            if single:
+                try:
+                    v = struct.unpack("f", struct.pack("f", v))[0]
+                except OverflowError:
+                    v = float("inf") if v > 0 else float("-inf")
+            vals.add(v + 0.0 if v != 0 else 0.0)          # 0.0 and -0.0 are one value
+        return impl == f"l({len(vals)},1)"
+    return None
 
 
 def extra_checks(cases, impl, model):
